@@ -316,6 +316,9 @@ func c12Run(w *W, idx int) {
 	if idx%40 == 28 {
 		c12DyingOperator(w, r)
 	}
+	if idx%40 == 18 {
+		c12DebugSession(w, r)
+	}
 	if plain.Dump != evv.Dump {
 		w.Fail("event-mode-changes-dump", "Dump differs between the plain and the event-mode program\nsource: %s\nconfig: %s\nplain:  %s\nevents: %s", src, ecfg, oneLine(plain.Dump), oneLine(evv.Dump))
 	}
@@ -698,6 +701,63 @@ func c12DyingOperator(w *W, r *rand.Rand) {
 					}
 				}
 			}
+		}
+	}
+}
+
+// c12DebugSession: one Debug/ReportEvent program traced by the library's own HandleDebugEvent for a whole session of
+// evaluations, successful and failing ones in turn (a failing evaluation must not leave the consumer in a state that
+// disturbs - or blocks - the next one). Every evaluation returns what the plain program returns. An evaluation that never
+// returns is observed by the worker watchdog (2.3).
+func c12DebugSession(w *W, r *rand.Rand) {
+	srcs := []string{
+		"(if (> (/ 10 i0) 2) (+ i0 1) (- i0 1))",
+		"(and (> i0 -5) (= (% 7 i0) 1) b0)",
+		"(+ 1 (ci i0 2) (/ 6 i0))",
+	}
+	src := srcs[r.Intn(len(srcs))]
+	opts := OptSet(r.Intn(16))
+	mode := 1 + r.Intn(2)
+	mk := func(events int) (*eval.Expr, *eval.Config, bool) {
+		cc := buildConfig(CaseCfg{Opts: opts, Events: events, VarNames: []string{"i0", "b0"}, Custom: stdCustom}, nil)
+		e, co := compileGuard(cc, src)
+		if co.Panic != nil || co.Err != nil {
+			w.Fail("debug-session/compile", "%s does not compile: %s", src, co)
+			return nil, nil, false
+		}
+		return e, cc, true
+	}
+	plain, pcc, ok := mk(0)
+	if !ok {
+		return
+	}
+	ev, _, ok := mk(mode)
+	if !ok {
+		return
+	}
+	ch := make(chan eval.Event)
+	ev.EventChan = ch
+	eval.HandleDebugEvent(ev)
+	defer close(ch)
+	for step, i0 := range []int64{2, 0, 5, 0, 2, 1, 0, 3} {
+		vals := map[string]interface{}{"i0": i0, "b0": step%2 == 0}
+		kind := []CallKind{CallEval, CallTryEval}[r.Intn(2)]
+		po, _ := callExpr(plain, kind, &RecFetcher{Vals: vals, Keys: pcc.VariableKeyMap}, nil, false)
+		eo := guard(func() (eval.Value, error) {
+			ctx := &eval.Ctx{VariableFetcher: &RecFetcher{Vals: vals, Keys: pcc.VariableKeyMap}}
+			if kind == CallTryEval {
+				return ev.TryEval(ctx)
+			}
+			return ev.Eval(ctx)
+		})
+		w.Evals += 2
+		w.Inc("debug_session_evaluations")
+		if po.Err != nil {
+			w.Inc("debug_session_failing_evaluations")
+		}
+		if !outcomeEq(po, eo) {
+			w.Fail("event-mode-changes-result/HandleDebugEvent-session", "evaluation %d of a session traced by HandleDebugEvent (i0=%d): plain gives %s, traced gives %s\nsource: %s (options %s, mode %d)", step+1, i0, po, eo, src, opts, mode)
+			return
 		}
 	}
 }
